@@ -8,7 +8,7 @@
    - [along (ev_adm ...)]: admissibility of NodeInv.v, only for C02 and C15. *)
 From Coq Require Import List NArith.
 From HS Require Import GTac Node Corr Monitors Proto Link NodeInv NodeLog NodePanic MonSound MonSoundDefs
-  MonSound2 MonSound3 MonSound4 MonSound5 MonSound6 MonSound7 MonSound8 MonSound9 MonSound10 MonSound11.
+  MonSound2 MonSound3 MonSound4 MonSound5 MonSound6 MonSound7 MonSound8 MonSound9 MonSound10 MonSound11 MonitorsC19 MonSound12.
 Import ListNotations.
 Open Scope N_scope.
 
@@ -126,3 +126,29 @@ Check mon_c09_needs_boot_once :
 Check all_monitors_premises_ok.
 Check mon_c05_good_exact : along lb_exact c4 3 (evs_c05 ++ [([], EvLoopback own_c3)]) (init c4).
 Check good_selector_exact : along lb_exact c4 1 evs_good (init c4).
+
+(* C19, the "when" direction (completeness): once distinct verified non-stale voters (timeout senders) reach quorum stake, the
+   node's high-QC round reaches the vote round (its round passes the timeout round) in that very step. No hypothesis. *)
+Check mon_c19_complete_sound : forall (c : Committee) (me : N) (evs : list (list N * Event)),
+  mon_c19_complete c evs (obs_of_run c me evs) = true.
+Print Assumptions mon_c19_complete_sound.
+Check mon_c19_tc_complete_sound : forall (c : Committee) (me : N) (evs : list (list N * Event)),
+  mon_c19_tc_complete c evs (obs_of_run c me evs) = true.
+Print Assumptions mon_c19_tc_complete_sound.
+(* the monitors are false on a trace in which the quorum voted and nothing happened, and they do fire on a model run *)
+Check c19c_detects_stuck :
+  mon_c19_complete c4 evs_c19c [mkObs [] KErr (1, 0, 0, 0); ob_stuck; ob_stuck; ob_stuck; ob_stuck] = false.
+Print Assumptions c19c_detects_stuck.
+Check c19t_detects_stuck :
+  mon_c19_tc_complete c4 evs_c19t [mkObs [] KErr (1, 0, 0, 0); ob_stuck; ob_stuck; ob_stuck] = false.
+Print Assumptions c19t_detects_stuck.
+Check c19c_hyps_met :
+  map snap_hq (obs_of_run c4 2 evs_c19c) = [0; 0; 0; 1; 1] /\
+  c19_complete_fired c4 evs_c19c (obs_of_run c4 2 evs_c19c) = 1 /\
+  mon_c19_complete c4 evs_c19c (obs_of_run c4 2 evs_c19c) = true.
+Print Assumptions c19c_hyps_met.
+Check c19t_hyps_met :
+  map snap_round (obs_of_run c4 1 evs_c19t) = [1; 1; 1; 2] /\
+  c19_tc_complete_fired c4 evs_c19t (obs_of_run c4 1 evs_c19t) = 1 /\
+  mon_c19_tc_complete c4 evs_c19t (obs_of_run c4 1 evs_c19t) = true.
+Print Assumptions c19t_hyps_met.
